@@ -210,6 +210,58 @@ func sysEW(prop string, r *rng, emit func(string)) {
 	}
 }
 
+// destEW: reuse and incr DESTINATIONS in every layout (plain, lazily transposed, strided view,
+// contiguous view, column-major, column-major view) while the operands are plain or lazily
+// transposed - one operation of every form of the property's family; the destination has the
+// operands' logical shape, or (rm only) the transposed shape with the same size
+func destEW(prop string, r *rng, emit func(string)) {
+	sh := []int{2, 3}
+	var forms []string // %a %b operands, %m mode
+	switch prop {
+	case "C06", "C07":
+		forms = []string{"bin:add:%a:%b:%m", "bin:sub:%a:%b:%m", "bin:max:%a:%b:%m", "bins:mul:%a:3:left:%m", "bins:sub:%a:3:right:%m", "fma:%a:%b:%d", "fmas:%a:3:%d"}
+	case "C11":
+		for _, op := range cmpOps {
+			forms = append(forms, "cmp:"+op+":%a:%b:same:%m")
+		}
+		forms = append(forms, "cmps:lt:%a:4:left:same:%m", "cmps:gte:%a:4:right:same:%m")
+	case "C12":
+		forms = []string{"un:neg:%a:%m", "un:square:%a:%m", "un:abs:%a:%m", "un:clamp.0.2:%a:%m", "un:sign:%a:%m"}
+	}
+	for _, dt := range []string{"f64", "i"} {
+		for _, la := range []string{"rm", "T"} {
+			for _, ld := range []string{"rm", "T", "stepslice", "slice", "cm", "cmslice", "rmT"} {
+				for _, form := range forms {
+					for _, mode := range []string{"reuse", "incr"} {
+						if strings.HasPrefix(form, "fma") && (mode == "incr" || dt != "f64") {
+							continue
+						}
+						if strings.HasPrefix(form, "cmp") && mode == "incr" {
+							continue
+						}
+						var p pb
+						preA, ia := source(r, la, sh, 1)
+						a := p.add(preA, ia)
+						preB, ib := source(r, "rm", sh, 3)
+						b := p.add(preB, ib)
+						var d int
+						if ld == "rmT" {
+							preD, id := source(r, "rm", []int{3, 2}, 40)
+							d = p.add(preD, id)
+						} else {
+							preD, id := source(r, ld, sh, 40)
+							d = p.add(preD, id)
+						}
+						o := strings.NewReplacer("%a", fmt.Sprint(a), "%b", fmt.Sprint(b), "%d", fmt.Sprint(d), "%m", fmt.Sprintf("%s.%d", mode, d)).Replace(form)
+						p.ops = append(p.ops, o)
+						emit(fmt.Sprintf("prog %s %s", dt, p.prog()))
+					}
+				}
+			}
+		}
+	}
+}
+
 // sizeEW: lengths around the block sizes of unrolled / vectorised loops (remainders of 2, 4, 8, 16,
 // 32, 64) and shapes of rank 5 and 6, for one operation of each family per mode.
 func sizeEW(prop string, emit func(string)) {
@@ -294,49 +346,6 @@ func genMixDt(prop string, emit func(string)) {
 		for _, p := range pairs {
 			for _, form := range []string{"vv", "vs", "sv", "vt", "tv", "reuse"} {
 				emit(fmt.Sprintf("mixdt %s %s %s %s", op, p[0], p[1], form))
-			}
-		}
-	}
-}
-
-// destEW: reuse / incr destinations that themselves need an iterator (lazily transposed, sliced,
-// column-major) while the operands are plain, for one operation of each form
-func destEW(prop string, r *rng, emit func(string)) {
-	var ops []string
-	switch prop {
-	case "C07":
-		ops = []string{"bin:add:%d:%d:%s", "bins:mul:%d:3:left:%s", "bins:sub:%d:3:right:%s", "un:neg:%d:%s", "un:square:%d:%s", "cmp:lt:%d:%d:same:%s"}
-	case "C12":
-		ops = []string{"un:neg:%d:%s", "un:abs:%d:%s", "un:cube:%d:%s", "un:clamp.2.4:%d:%s"}
-	default:
-		return
-	}
-	for _, dt := range []string{"f64", "i", "f32"} {
-		for _, ld := range []string{"T", "slice", "stepslice", "cm"} {
-			for _, la := range []string{"rm", "T"} {
-				for _, o := range ops {
-					for _, m := range []string{"reuse", "incr"} {
-						if strings.HasPrefix(o, "cmp:") && m == "incr" {
-							continue
-						}
-						var p pb
-						preA, ia := source(r, la, []int{3, 2}, 1)
-						a := p.add(preA, ia)
-						preB, ib := source(r, "rm", []int{3, 2}, 2)
-						b := p.add(preB, ib)
-						preD, id := source(r, ld, []int{3, 2}, 50)
-						d := p.add(preD, id)
-						mode := fmt.Sprintf("%s.%d", m, d)
-						var opstr string
-						if strings.Count(o, "%d") == 2 {
-							opstr = fmt.Sprintf(o, a, b, mode)
-						} else {
-							opstr = fmt.Sprintf(o, a, mode)
-						}
-						p.ops = append(p.ops, opstr)
-						emit(fmt.Sprintf("prog %s %s", dt, p.prog()))
-					}
-				}
 			}
 		}
 	}
